@@ -12,3 +12,14 @@ contract(NP, 'ndarray.copy', key='ndarray.copy', assumed=True,
     params={}, order=[], result='arr',
     ensures=['result.ndim == self.ndim', 'result.rows == self.rows', 'result.cols == self.cols',
              'result.dtype == self.dtype', 'result.writeable', 'result.fresh'])
+
+contract(NP, 'np.empty', key='np.empty', assumed=True,
+    params=dict(shape='list[int]', dtype='dtype'), order=['shape', 'dtype'], result='arr',
+    requires=['len(shape) == 1 or len(shape) == 2'],
+    ensures=['result.ndim == len(shape) and result.rows == at(shape, 0) and result.cols == cond(len(shape) == 2, at(shape, 1), 1)',
+             'result.dtype == dtype and result.writeable and result.fresh'])
+contract(NP, 'np.concatenate', key='np.concatenate', assumed=True,      # writes only into `out`
+    params=dict(arrays='list[arr]', out='arr', axis='int'), order=['arrays', 'axis', 'out'], result='arr',
+    requires=['out.writeable and out.fresh'],                            # G2 in contract form: the output buffer is this activation's own
+    raises={'ValueError': 'maybe'},
+    ensures=['result == out'])
